@@ -1,4 +1,5 @@
 """C06 - IPM file round trip: messages written are the messages read back; instances do not influence each other."""
+import copy
 import io
 import sys
 import threading
@@ -64,6 +65,10 @@ def cases(ctx):
         n = rng.choice([1, 2, 3, 5, 10, 30, 80] + ([150, 300] if j % 7 == 0 else []) + ([600] if not quick and j % 40 == 0 else []))
         yield {'kind': 'roundtrip', 'cfg': rng.choice(cids), 'enc': rng.choice(encs), 'fmt': rng.choice(['vbs', '1014']),
                'n': n, 'salt': rng.randint(0, 10 ** 9), 'big': rng.random() < 0.4, 'api': rng.choice(['write', 'write_many', 'with'])}
+    # files of more than 1 MiB and more than 2 MiB of blocks (buffering thresholds in readers/writers)
+    if ctx.shard in (3, 4):
+        yield {'kind': 'roundtrip', 'cfg': 'packaged', 'enc': 'cp500' if ctx.shard == 3 else 'latin_1', 'fmt': '1014',
+               'n': 260 if ctx.shard == 3 else 420, 'salt': 77 + ctx.seed, 'big': True, 'huge': True, 'api': 'write'}
     for j in range((300 if quick else 6000) // ctx.nshards + 1):
         yield {'kind': 'interleave', 'salt': rng.randint(0, 10 ** 9), 'instances': rng.randint(2, 4)}
     if ctx.shard < (2 if quick else 8):
@@ -81,11 +86,25 @@ def judge(ctx, case):
 
 def judge_roundtrip(ctx, case):
     m = ctx.mciipm
-    cfg = msgwork.cfg_of(case['cfg'])
+    # a throwaway deep copy per file: configuration objects come and go in real programs (and their ids get reused)
+    cfg = copy.deepcopy(msgwork.cfg_of(case['cfg']))
     enc = case['enc']
     blocked = case['fmt'] == '1014'
     rng = ctx.rng_global('rt', case['salt'])
-    msgs = gen_list(rng, cfg, enc, case['n'], case['big'])
+    if case.get('huge'):
+        lll = [b for b in gen.data_bits(cfg) if cfg[str(b)]['field_type'] == 'LLLVAR' and not cfg[str(b)].get('field_processor')
+               and gen.is_text(cfg[str(b)])]
+        msgs = []
+        for k in range(case['n']):
+            take = rng.sample(lll, 5)
+            x = gen.gen_message(rng, cfg, enc, subset=take + [2, 3, 4], pds_mode='none', lengths={b: rng.randint(960, 999) for b in take})
+            if k % 3 == 0:
+                x.update(gen.gen_pds_items(rng, enc, 2, 1))
+            if len(ref.encode(x, cfg, enc)) <= 6000:
+                msgs.append(x)
+        ctx.count('round trips of files over 1 MiB')
+    else:
+        msgs = gen_list(rng, cfg, enc, case['n'], case['big'])
     ctx.case_done(case, nontrivial=bool(msgs))
     if not msgs:
         return
@@ -156,8 +175,8 @@ class Program:
     def __init__(self, ctx, rng, idx):
         m = ctx.mciipm
         self.role = rng.choice(['writer', 'reader', 'reader'])
-        self.cid = rng.choice(['packaged', ['variant', ctx.seed * 7919]])
-        self.cfg = msgwork.cfg_of(self.cid)
+        self.cid = rng.choice(['packaged', ['variant', ctx.seed * 7919], ['special', 0]])
+        self.cfg = copy.deepcopy(msgwork.cfg_of(self.cid))
         self.enc = rng.choice(ENCS)
         self.blocked = rng.random() < 0.5
         self.msgs = gen_list(rng, self.cfg, self.enc, rng.randint(1, 7))
@@ -365,6 +384,8 @@ def require(m):
         reasons.append('threaded stress did not run')
     elif c.get('thread alternations between consecutive operations', 0) < 50:
         reasons.append('threads did not actually overlap (fewer than 50 alternations observed)')
+    if not c.get('round trips of files over 1 MiB'):
+        reasons.append('no file over 1 MiB was round-tripped')
     if max(m['classes'].get('list sizes', [0])) < 80:
         reasons.append('no file of 80 or more records')
     return reasons
